@@ -292,3 +292,147 @@ func TestC13LeadingEmptyRawBytes(t *testing.T) {
 		t.Fatalf("`[i1:i2]` accepted for Index(nil, Null(), Empty(), i1, i2)")
 	}
 }
+
+// ---- group-null (c13_group.go) and custom-half (c13_custom.go) ----
+
+func c13CaseWithTag(cs []*Case, tag string) *Case {
+	for _, c := range cs {
+		for _, tg := range c.Tags {
+			if tg == tag {
+				return c
+			}
+		}
+	}
+	return nil
+}
+
+// the fixed shapes hold on the implementation, re-execution gives the same observations, and
+// hand-made bad outputs are rejected: an untouched g.Null() that shows the tokens chained onto
+// ANOTHER g.Null() result (what a shared null statement produces), in the mutated values only
+// and in both versions alike.
+func TestC13GroupNullOracle(t *testing.T) {
+	p := c13{}
+	fixed := c13gFixed()
+	for _, c := range fixed {
+		got := ExecFresh(c.Hist)
+		if m := p.Oracle(c, got); m != "" {
+			t.Fatalf("%v: rejected on the implementation: %s", c.Tags, m)
+		}
+		again := ExecFresh(c.Hist)
+		for i := range got {
+			if !hist.SameObs(got[i], again[i]) {
+				t.Fatalf("%v: re-execution differs at observation %d", c.Tags, i)
+			}
+		}
+	}
+	c := c13CaseWithTag(fixed, "shape=params-slot")
+	good := ExecFresh(c.Hist)
+	want1 := "package p\n\nimport \"context\"\n\n\nfunc f (a,ctx context.Context,b)"
+	if good[2].Out != want1 {
+		t.Fatalf("stage 1 renders %q", good[2].Out)
+	}
+	shared := "package p\n\nimport \"context\"\n\n\nfunc f (a,ctx context.Context,b,ctx context.Context)"
+	bad := append([]hist.Obs{}, good...)
+	bad[2].Out = shared
+	if m := p.Oracle(c, bad); m == "" {
+		t.Errorf("the untouched g.Null() shows the other slot's tokens: accepted")
+	}
+	bad[3].Out = shared // the twin wrong in the same way: the pinned bytes decide
+	if m := p.Oracle(c, bad); m == "" {
+		t.Errorf("both versions wrong in the same way: accepted")
+	}
+	bad = append([]hist.Obs{}, good...)
+	bad[4].Out = shared // only the render AFTER the one that followed the chaining
+	if m := p.Oracle(c, bad); m == "" {
+		t.Errorf("a later render differs: accepted")
+	}
+	bad = append([]hist.Obs{}, good...)
+	bad[0].Out = "package p\n\n\nfunc f (a,,b)" // a separator for the unfilled slot
+	bad[1].Out = bad[0].Out
+	if m := p.Oracle(c, bad); m == "" {
+		t.Errorf("separator for an unfilled slot: accepted")
+	}
+	bad = append([]hist.Obs{}, good...)
+	bad[len(bad)-2].Out = "package p\n\n\n<x>" // an untouched statement returned by g.Null() renders something
+	if m := p.Oracle(c, bad); m == "" {
+		t.Errorf("an untouched g.Null() statement renders something: accepted")
+	}
+	// random cases: accepted on the implementation; single raw lists are cut at their items
+	r := rand.New(rand.NewSource(5))
+	counted := 0
+	for i := 0; i < 300; i++ {
+		c := c13gRandom(r, i%3 == 0)
+		got := ExecFresh(c.Hist)
+		if m := p.Oracle(c, got); m != "" {
+			t.Fatalf("rejected on the implementation: %s\n%s", m, c.Hist.Sexp())
+		}
+		if i%3 != 0 {
+			continue
+		}
+		// both versions get one more separator in front of the first item: pairs stay equal
+		bad := append([]hist.Obs{}, got...)
+		k := strings.Index(bad[0].Out, "i0")
+		sp := c.Meta["spec"].(*c13gSpec)
+		sep := sp.Stmts[0].Groups[0].Opts.Separator
+		if sp.Stmts[0].Groups[0].Method != "Custom" {
+			sep = c13Doc[sp.Stmts[0].Groups[0].Method].Sep
+		}
+		if k < 0 || sep == "" || strings.Index(bad[1].Out, "i0") != k {
+			continue
+		}
+		bad[0].Out = bad[0].Out[:k] + sep + bad[0].Out[k:]
+		bad[1].Out = bad[0].Out
+		if m := p.Oracle(c, bad); m == "" {
+			t.Fatalf("a separator before the first item in both versions: accepted\n%q", bad[0].Out)
+		}
+		counted++
+	}
+	if counted < 30 {
+		t.Errorf("only %d single raw lists had their separators counted", counted)
+	}
+}
+
+func TestC13HalfOracle(t *testing.T) {
+	p := c13{}
+	cs := c13HalfCases()
+	n := 0
+	for _, c := range cs {
+		if c13CaseWithTag([]*Case{c}, "pinned-raw-bytes") == nil && n%9 != 0 {
+			n++
+			continue
+		}
+		n++
+		if m := p.Oracle(c, ExecFresh(c.Hist)); m != "" {
+			t.Fatalf("%v: rejected on the implementation: %s\n%s", c.Tags, m, c.Hist.Sexp())
+		}
+	}
+	// []T{{}, y}: Values(Custom(Options{Close: "{}"}, Null(), nil, ...), i0)
+	var c *Case
+	for _, x := range cs {
+		if x.Meta["pinned"] == "{{},i0}" && x.Meta["nulls"] == 3 {
+			c = x
+		}
+	}
+	if c == nil {
+		t.Fatal("pinned shape {{},i0} with nulls not generated")
+	}
+	hd := "package p\n\n\n"
+	w := func(s string) hist.Obs { return hist.Obs{Kind: "write", Out: hd + s} }
+	if m := p.Oracle(c, []hist.Obs{w("{{},i0}"), w("{{},i0}")}); m != "" {
+		t.Errorf("good output rejected: %s", m)
+	}
+	for _, bad := range [][2]string{
+		{"{i0}", "{i0}"},        // the close-only group taken for a null item in both versions
+		{"{i0}", "{{},i0}"},     // ... only where it holds null items
+		{"{,i0}", "{,i0}"},      // its token dropped, its separator kept
+		{"{{}i0}", "{{}i0}"},    // its token kept, its separator dropped
+		{"{{},,i0}", "{{},i0}"}, // a null item inside it leaks a separator outside
+	} {
+		if m := p.Oracle(c, []hist.Obs{w(bad[0]), w(bad[1])}); m == "" {
+			t.Errorf("bad outputs %q accepted", bad)
+		}
+	}
+	if m := p.Oracle(c, []hist.Obs{{Kind: "panic", Msg: "x"}, w("{{},i0}")}); m == "" {
+		t.Errorf("panic accepted")
+	}
+}
